@@ -727,16 +727,20 @@ def refusal_live(ctx: Ctx, rule: str, why: str) -> int:
                         what=f"the refusal of callables of non-accepted modules is dead code in {f.name}")
             # the kinds of callable for which the resolution is skipped (`not is_lambda(f) and ...`): they are refused by a test of their own
             skip_atoms = set()
-            for b in cfg.nodes:
-                if b.kind == "branch" and b.ast is not None and isinstance(b.ast, ast.expr):
-                    for y in ast.walk(b.ast):
-                        if isinstance(y, ast.Call) and isinstance(y.func, ast.Name) and y.func.id.startswith("is_") and len(y.args) == 1 and isinstance(y.args[0], ast.Name) \
-                                and y.args[0].id in f.params:
-                            skip_atoms.add(unparse(y))
+
+            def _kind_test(y: ast.AST, f_=f) -> Optional[str]:
+                if isinstance(y, ast.Call) and isinstance(y.func, ast.Name) and y.func.id.startswith("is_") and len(y.args) == 1 and isinstance(y.args[0], ast.Name) \
+                        and y.args[0].id in f_.params:
+                    return unparse(y)
+                return None
+            # (the test may be held in a local first: `lambda_fun = is_lambda(f)`, `if not lambda_fun: <resolution>`)
+            for y in f.own_nodes():
+                if _kind_test(y) is not None:
+                    skip_atoms.add(unparse(y))
             for atom in sorted(skip_atoms):
                 w2 = dict(world)
                 w2[atom] = True
-                av2 = excluding_branches(prog, f, cfg, w2)
+                av2 = excluding_branches(prog, f, cfg, w2, _kind_test)
                 if cfg.find_path([cfg.entry], tg, avoid=av2) is not None:
                     continue   # the resolution also runs for this kind
                 n += 1
